@@ -268,8 +268,8 @@ PROPS = {
                     "completes normally is executed, and no pruned one ever is."),
         "not_covered": ("soundness of the dataflow itself with respect to execution: liveness fix-point, compute_block_facts, summary "
                         "propagation to a fixpoint (summarize_component's outer loops; one absorption step is decided), CFG lowering of the other statements and scope kills, the statement-level loops of compute_max_local_reference_stmt and "
-                        "build_optimization_plan's loops (arena-resident tables do not terminate in CBMC). Two genuine liveness defects "
-                        "found by a seeding sub-agent on the unmodified tree are outside these contracts (DESIGN.md section 6)."),
+                        "build_optimization_plan's loops (arena-resident tables do not terminate in CBMC). The liveness and effect-class defects found by "
+                        "seeding sub-agents on the unmodified tree are repaired (5dca53d, 47f97eb, 224dbb2) and the last two are now decided by obligations."),
         "trusted_base": [KANI_TRUST, VERUS_TRUST, OS_TRUST],
     },
     "C04": {
